@@ -168,11 +168,18 @@ def cases(draw):
     n = draw(st.integers(1, 6))
     kind = draw(st.sampled_from(["lin", "lin", "lv", "rat"]))
     dens = draw(st.sampled_from([0.3, 0.6, 1.0]))
+    # one case in five couples only neighbours (band of half-width 1 or 2) in up to 8 dimensions: with jac_sparsity the
+    # grouped finite differences then perturb several columns at once, and columns join groups created earlier
+    band = draw(st.integers(0, 4)) == 0
+    bw = 0
+    if band:
+        n = draw(st.integers(4, 8))
+        bw = draw(st.integers(1, 2))
     mat = []
     for i in range(n):
         row = []
         for j in range(n):
-            keep = (i == j) or draw(fl(0, 1)) < dens
+            keep = (i == j) or ((abs(i - j) <= bw) if band else (draw(fl(0, 1)) < dens))
             lo, hi = (-2.0, 0.5) if i == j else (-1.0, 1.0)
             if kind == "lv":
                 lo, hi = (-1.0, -0.1) if i == j else (-0.3, 0.3)
@@ -193,7 +200,7 @@ def cases(draw):
         v1 = [draw(fl(0.1, 1.0)) for _ in range(n)]
     use_args = draw(st.booleans())
     s = draw(fl(0.5, 1.5)) if use_args else 1.0
-    method = draw(st.sampled_from(METHODS))
+    method = draw(st.sampled_from((["Radau", "BDF"] * 3 + list(METHODS)) if band else METHODS))
     int_ret = method == "RK4" and kind == "lin" and draw(st.integers(0, 3)) == 0
     back = draw(st.booleans())
     t0 = draw(st.sampled_from([0.0, 0.0, 1.5, -3.25])) if not draw(st.booleans()) else draw(fl(-10, 10))
@@ -239,8 +246,8 @@ def cases(draw):
     if kind == "lin" and method in ("Radau", "BDF"):
         jac_mode = draw(st.sampled_from(["none", "callable", "callable_sparse", "const", "const_sparse", "const_int"]))
     sparsity = None
-    if jac_mode == "none" and method in ("Radau", "BDF") and draw(st.booleans()):
-        extra = draw(fl(0.0, 0.5))
+    if jac_mode == "none" and method in ("Radau", "BDF") and (draw(st.booleans()) or (band and draw(st.booleans()))):
+        extra = 0.0 if draw(st.booleans()) else draw(fl(0.0, 0.5))
         fmt = draw(st.sampled_from(["csc", "csr", "coo", "lil"]))
         extras = [[draw(fl(0, 1)) < extra for _ in range(n)] for _ in range(n)]
         sparsity = {"fmt": fmt, "extras": extras}
@@ -453,7 +460,7 @@ def write_evidence(tier, wall, violations, n_examples):
         "coverage": {
             "evaluations": STATS["evaluations"],
             "distinct_nontrivial": len(STATS["nontrivial"]),
-            "rule": "Hypothesis-generated cases: linear / Lotka-Volterra-type quadratic / rational right-hand sides written with + - * / in a fixed order (bit-identical in CPython and Rust), n<=6, six methods, both directions, rtol/atol scalar or sequence, first_step, max_step, min_step, max_steps, t_eval (list or ndarray), dense_output, 0..3 events (single callable / list / tuple, terminal and direction attributes), extra args (must reach fun, events and jac), Jacobian callable / callable returning scipy sparse / constant ndarray / constant scipy sparse / constant integer ndarray, jac_sparsity as csc/csr/coo/lil superset patterns, return type list / tuple / float ndarray / int ndarray. Each case is solved by ivp.solve_ivp and by the Rust harness; shapes, every bit of t, y, t_events, y_events, sol(t), sol([t..]), status/success and counters are compared; with jac_sparsity the run is repeated without it. Non-trivial = at least two option kinds present. Distinct = sha1 of the canonical JSON of the case.",
+            "rule": "Hypothesis-generated cases: linear / Lotka-Volterra-type quadratic / rational right-hand sides written with + - * / in a fixed order (bit-identical in CPython and Rust), n<=6 (n<=8 for the one case in five that couples only neighbouring components), six methods, both directions, rtol/atol scalar or sequence, first_step, max_step, min_step, max_steps, t_eval (list or ndarray), dense_output, 0..3 events (single callable / list / tuple, terminal and direction attributes), extra args (must reach fun, events and jac), Jacobian callable / callable returning scipy sparse / constant ndarray / constant scipy sparse / constant integer ndarray, jac_sparsity as csc/csr/coo/lil superset patterns, return type list / tuple / float ndarray / int ndarray. Each case is solved by ivp.solve_ivp and by the Rust harness; shapes, every bit of t, y, t_events, y_events, sol(t), sol([t..]), status/success and counters are compared; with jac_sparsity the run is repeated without it. Non-trivial = at least two option kinds present. Distinct = sha1 of the canonical JSON of the case.",
             "samples": STATS["samples"],
             "class_histogram": STATS["classes"],
             "trivial_by_reason": STATS["trivial"],
